@@ -105,9 +105,10 @@ class NumEval(ArithEval):
                 return -float("inf") if m == "neg_infinity" else -1.7976931348623157e308
             if m in ("to_f64", "to_f32") and len(a) == 1:
                 return Enum(OPT, "Some", [float(self.ev(a[0]))])
-            if m in ("is_zero", "is_nan", "is_finite", "is_sign_negative") and len(a) == 1:
+            if m in ("is_zero", "is_nan", "is_finite", "is_infinite", "is_sign_negative", "is_sign_positive") and len(a) == 1:
                 v = self.ev(a[0])
-                return {"is_zero": v == 0, "is_nan": v != v, "is_finite": math.isfinite(v), "is_sign_negative": math.copysign(1.0, v) < 0}[m]
+                return {"is_zero": v == 0, "is_nan": v != v, "is_finite": math.isfinite(v), "is_infinite": math.isinf(float(v)),
+                        "is_sign_negative": math.copysign(1.0, v) < 0, "is_sign_positive": math.copysign(1.0, v) > 0}[m]
             if m == "div" and len(a) == 2:
                 x, y = self.ev(a[0]), self.ev(a[1])
                 if y == 0:
